@@ -4,12 +4,13 @@ The completeness clause of C08 rests on LLL (an oracle of the model), so whether
 find a planted key is a question about the implementation only.  This module
   * replays the listed instances of known finding D23 (keys that satisfy the premise of C08 and are
     NOT found on the unchanged tree: few signatures with a wide bias on secp384r1 / secp521r1),
-  * evaluates a gated family in the region where the real checks were measured to find every planted
-    key (>= 20 signatures in one window, product >= 2L): a miss there is a VIOLATION with the
-    signature set as replay,
+  * evaluates members of a FIXED, RECORDED corpus (>= 20 signatures in one window, product >= 2L; 2160 signature
+    sets, harness/corpus/c08_margin_measurement.json) on which the unchanged tree finds every planted key: a miss
+    there is a VIOLATION with the signature set as replay, and never a false alarm (deterministic checks),
   * counts hits at the margin outside the gate (statistics only).
 All signature sets are functions of (curve id, #signatures, bits, kind, seed)."""
 import hashlib
+import os
 import random
 
 import framework as fw
@@ -117,20 +118,58 @@ def known_findings(rep):
 
 
 GATE_NSIG = (20, 22, 24)
+GATE_CURVES = (2, 6, 4, 5)
+GATE_SEEDS = 60
+GATE_MEASUREMENT_FILE = os.path.join(os.path.dirname(os.path.dirname(os.path.abspath(__file__))), 'corpus',
+                                     'c08_margin_measurement.json')
+
+
+def gate_corpus():
+  """the FIXED corpus behind the gate: every (curve id, #signatures, bits, kind, seed) with one window of 20 / 22 / 24
+  signatures, bits = max(16, ceil(2L / #signatures)) (product >= 2L) and seed < GATE_SEEDS: 2160 signature sets, each a
+  deterministic function of its parameters (make_sigs)."""
+  import math
+  out = []
+  for cid in GATE_CURVES:
+    L = curve_bits(cid)
+    for kind in KINDS:
+      for nsig in GATE_NSIG:
+        for seed in range(GATE_SEEDS):
+          out.append((cid, nsig, max(16, math.ceil(2 * L / nsig)), kind, seed))
+  return out
+
+
+def gate_members():
+  """members of the corpus that the recorded measurement (harness/corpus/c08_margin_measurement.json, written by
+  harness/measure_c08_margin.py) found on the unchanged tree; empty when the file is missing or describes another corpus."""
+  import json
+  try:
+    m = json.load(open(GATE_MEASUREMENT_FILE))
+  except Exception:  # noqa
+    return []
+  corpus = gate_corpus()
+  if m.get('instances') != len(corpus) or m.get('seeds') != GATE_SEEDS:
+    return []
+  missed = {tuple(t) for t in m.get('missed', [])}
+  return [t for t in corpus if t not in missed]
 
 
 def gated(rep, rng, tier):
-  """region measured safe (2160 of 2160 instances found: curves secp256r1, secp256k1, secp384r1, secp521r1 x three kinds x
-  20 / 22 / 24 signatures x 60 seeds, bits = ceil(2L / signatures)): one window of 20..24 signatures, product >= 2L:
-  a miss is a violation."""
-  import math
+  """The gated region is a FIXED, RECORDED corpus (no gate may be seed-dependent on the unchanged tree): the 2160
+  signature sets of `gate_corpus` - curves secp256r1, secp256k1, secp384r1, secp521r1 x three kinds x 20 / 22 / 24
+  signatures in one window x 60 seeds, bits = ceil(2L / signatures), product >= 2L - were run through the real checks
+  (harness/measure_c08_margin.py -> harness/corpus/c08_margin_measurement.json).  VERIF_SEED only selects WHICH members
+  a run re-evaluates (one per curve and kind in the quick tier, six in the thorough tier); the checks are deterministic,
+  so a miss on a member is a failing input - a regression on a recorded input - and never a false alarm."""
+  members = gate_members()
   plan = []
-  for cid in (2, 6, 4, 5):
-    L = curve_bits(cid)
+  for cid in GATE_CURVES:
     for kind in KINDS:
-      for _ in range(1 if tier == 'quick' else 6):
-        nsig = rng.choice(GATE_NSIG)
-        plan.append((cid, nsig, max(16, math.ceil(2 * L / nsig)), kind, rng.randrange(1, 10**6)))
+      pool = [t for t in members if t[0] == cid and t[3] == kind]
+      if pool:
+        plan += rng.sample(pool, min(len(pool), 1 if tier == 'quick' else 6))
+  if not members:
+    rep.notes.append('c08_margin: no recorded measurement (harness/corpus/c08_margin_measurement.json): nothing is gated')
   hits = 0
   for t in plan:
     ok = found(*t)
@@ -141,7 +180,8 @@ def gated(rep, rng, tier):
     if not ok:
       rep.violations.append(dict(
           op=CHECK_OF[t[3]], line='c08_margin.found%r' % (t,), info=dict(replay=list(t)), impl='not flagged', model='flagged',
-          what='%s: issuer with %d signatures x %d biased bits (%s) on curve %d (%d-bit order; product >= 2 x curve size, inside the '
-               'region where every measured instance was found) is not flagged with its key'
+          what='%s: issuer with %d signatures x %d biased bits (%s) on curve %d (%d-bit order; product >= 2 x curve size; a member of the '
+               'recorded corpus harness/corpus/c08_margin_measurement.json that the unchanged tree finds) is not flagged with its key'
                % (CHECK_OF[t[3]], t[1], t[2], t[3], t[0], curve_bits(t[0]))))
-  rep.extra['c08_margin_gated'] = dict(instances=len(plan), found=hits)
+  rep.extra['c08_margin_gated'] = dict(instances=len(plan), found=hits, corpus_members=len(members),
+                                       measurement=os.path.relpath(GATE_MEASUREMENT_FILE, fw.VERIF))
